@@ -61,15 +61,27 @@ def d1_error_discipline(ctx, rm: REModel):
 def d2_poll_every_iteration(ctx, rm: REModel):
     run = rm.run
     g = q.cfg(run, q.quiet_policy(rm.repo))
+    # the poll: under the state lock self._exception is read; a non-None value ends up in stashed_exception and the attribute is cleared
     polls = [s for s in A.walk_stmts(rm.inner_try.body) if isinstance(s, ast.With) and "_state_lock" in A.norm(s.items[0].context_expr)
-             and any(isinstance(x, ast.If) and A.norm(x.test) == "self._exception is not None" for x in s.body)]
+             and any(isinstance(n, ast.Attribute) and A.chain(n) == "self._exception" and isinstance(n.ctx, ast.Load) for n in ast.walk(s))]
     if not polls:
         ctx.ob("C12.D2-status-failure-polled", cname(run, None, "poll of self._exception under the state lock"), False,
                "failed statuses are no longer picked up by the message loop", where=where(run, rm.inner_try))
         return
     poll = polls[0]
-    inner = [x for x in poll.body if isinstance(x, ast.If)][0]
-    ok = any(A.norm(x) == "stashed_exception = self._exception" for x in inner.body) and any(A.norm(x) == "self._exception = None" for x in inner.body)
+    cleared = any(isinstance(x, ast.Assign) and A.chain(x.targets[0]) == "self._exception" and isinstance(x.value, ast.Constant) and x.value.value is None
+                  for x in A.walk_stmts(poll.body))
+    takes = [x for x in A.walk_stmts(rm.inner_try.body) if isinstance(x, ast.Assign) and any(isinstance(t, ast.Name) and t.id == "stashed_exception" for t in x.targets)
+             and A.norm(q.expand(run.node, x.value)) == "self._exception"]
+    pmr = A.parents(run.node)
+    def guarded_not_none(st):
+        n = st
+        while n in pmr:
+            n = pmr[n]
+            if isinstance(n, ast.If) and A.norm(q.expand(run.node, n.test)) in ("self._exception is not None", "self._exception"):
+                return True
+        return False
+    ok = cleared and len(takes) == 1 and guarded_not_none(takes[0])
     ctx.ob("C12.D2-status-failure-polled", cname(run, None, "the pending failure is taken and cleared"), ok,
            "" if ok else "the pending failure is not moved into stashed_exception / not cleared (it would be thrown repeatedly or never)", where=where(run, poll))
     pulls = [s for s in A.walk_stmts(rm.inner_try.body) if not isinstance(s, (ast.Try, ast.If, ast.With)) and
